@@ -47,6 +47,37 @@ def gen_cases(tier, rng):
             if pos < 5 and l == order[pos]: pos += 1
             elif pos == 5 and l == "DEACT": pos = 0
         cases.append(history_case(h, rng, rng.randrange(8)))
+    # control PDUs whose action shares bits with the expected one, at both control-waiting states
+    tricky = [0x0104, 0x0204, 0x8004, 0xff04, 0x0400, 0x0302, 0x0102, 0x8002, 0x0200, 0, 1, 3, 5, 0xffff]
+    for pos, good in ((2, 4), (3, 2)):
+        for act in tricky:
+            if act == good: continue
+            pre = ["DA", "SYNC", "COOP"][:pos]
+            steps = [INPUTS[0]]
+            for l in pre: steps += [R(letter_frame(l, SHARE + 0x10001)), INPUTS[1]]
+            steps += [R(slow_frame(control(act, share_id=SHARE + 0x10001))), INPUTS[2]]
+            for skip_proper in (0, 1):
+                # with the proper PDU following, and with the handshake continuing as if the wrong one had been accepted
+                rest = ["COOP", "GRANTED", "FONTMAP"][pos - 2 + skip_proper:]
+                st2 = list(steps)
+                for l in rest: st2 += [R(letter_frame(l, SHARE + 0x10001)), INPUTS[3]]
+                st2 += [R(letter_frame("FPBMP")), INPUTS[4]]
+                cases.append((case(st2), ("hist", tuple(pre + ["CTRLOTHER"] + rest + ["FPBMP"]), None)))
+    # several PDUs batched in one frame while in the window
+    singles = {"SEI": set_error_info(7), "UNK": unknown_data(), "UNK2": unknown_data(0x36, b""), "BADDATA": data_pdu(0x1f, b"\x02\x00\x00\x00"),
+               "DEACT": deactivate_all(), "FONTMAP": font_map(), "SYNC": synchronize()}
+    act = ["DA", "SYNC", "COOP", "GRANTED", "FONTMAP"]
+    names = sorted(singles)
+    for a in names:
+        for b in names:
+            for c in ([None] + (names if not quick else ["DEACT"])):
+                batch = [a, b] + ([c] if c else [])
+                body = b"".join(singles[x] for x in batch)
+                steps = [INPUTS[0]]
+                for l in act: steps += [R(letter_frame(l, SHARE + 0x10001)), INPUTS[1]]
+                steps += [R(slow_frame(body)), INPUTS[5], R(letter_frame("FPBMP")), INPUTS[6]]
+                letter = "DEACT" if "DEACT" in batch else "SEI"
+                cases.append((case(steps), ("hist", tuple(act + [letter, "FPBMP"]), None)))
     return cases
 
 def classify(line, out):
@@ -67,7 +98,7 @@ def oracle(line, out, expect):
     for s in steps:
         if s[0] in ("panic", "spin", "crashed"): return "crashed: " + s[0]
     if expect is None: return None
-    _, letters, k0 = expect
+    letters, k0 = expect[1], expect[2]
     toks = line.split()[6:]
     if len(steps) != len(toks): return "run stopped early: %d of %d steps" % (len(steps), len(toks))
     ref = RefAutomaton()
